@@ -49,6 +49,21 @@ def ref? (s : String) : Option Ref :=
 def piece? (s : String) : Option Piece :=
   if s.front == 'T' then (unhex (s.drop 1).toString).map Piece.text else (ref? s).map Piece.ref
 
+/-- `R<ref>` | `L<ref>,<ref>…` | `K<hexkey>=<ref>,…` | `V<hex>` -/
+def pyArg? (s : String) : Option PyArg :=
+  let body := (s.drop 1).toString
+  match s.front with
+  | 'R' => (ref? body).map PyArg.res
+  | 'L' => if body == "" then some (.list []) else ((body.splitOn ",").mapM ref?).map PyArg.list
+  | 'K' => if body == "" then some (.dict []) else
+    ((body.splitOn ",").mapM fun (kv : String) => match kv.splitOn "=" with
+      | [k, r] => match unhex k, ref? r with
+        | some k, some r => some (k, r)
+        | _, _ => none
+      | _ => none).map PyArg.dict
+  | 'V' => (unhex body).map PyArg.value
+  | _ => none
+
 def stmt? (ws : List String) : Option Stmt :=
   match ws with
   | ["I", p] => (unhex p).map Stmt.input
@@ -64,7 +79,7 @@ def stmt? (ws : List String) : Option Stmt :=
     | some j, some n, some e => some (.ext j n e)
     | _, _, _ => none
   | ["P", n] => if n == "-" then some (.pyjob none) else (unhex n).map fun s => Stmt.pyjob (some s)
-  | "Y" :: j :: rs => match j.toNat?, rs.mapM ref? with
+  | "Y" :: j :: rs => match j.toNat?, rs.mapM pyArg? with
     | some j, some rs => some (.pycall j rs)
     | _, _ => none
   | ["W", r, d] => match ref? r, unhex d with
@@ -77,11 +92,25 @@ def sortStrs (l : List String) : List String := l.toArray.qsort (· < ·) |>.toL
 def showPairs (ps : List (Str × Str)) : String :=
   if ps.isEmpty then "-" else joinWith "," (sortStrs (ps.map fun p => String.ofList p.1 ++ ">" ++ String.ofList p.2))
 
+def showPrepared1 : Prepared1 → String
+  | .path p => "p:" ++ String.ofList p
+  | .dictPath kvs => "d:{" ++ joinWith "&" (kvs.map fun kv => String.ofList kv.1 ++ "=" ++ String.ofList kv.2) ++ "}"
+
+def showPrepared : Prepared → String
+  | .one p => showPrepared1 p
+  | .list ps => "l:[" ++ joinWith "|" (ps.map showPrepared1) ++ "]"
+  | .dict kvs => "m:{" ++ joinWith "|" (kvs.map fun kv => String.ofList kv.1 ++ "=" ++ showPrepared1 kv.2) ++ "}"
+  | .value v => "v:" ++ String.ofList v
+
+def showCalls (st : St) (j : Nat) : String :=
+  let cs := preparedCalls st "$L".toList j
+  if cs.isEmpty then "-" else joinWith ";" (cs.map fun args => joinWith "," (args.map showPrepared))
+
 def showPlan (st : St) (j : Nat) : String :=
   let p := jobPlan st "$R".toList "$L".toList j
   let cmds := if p.commands.isEmpty then "-" else joinWith "," (p.commands.map hex)
   let par := if p.parents.isEmpty then "-" else joinWith "," (sortStrs (p.parents.map toString))
-  s!"job{j} cmds={cmds} in={showPairs p.inputs} out={showPairs p.outputs} par={par} sym={showPairs p.symlinks}"
+  s!"job{j} cmds={cmds} in={showPairs p.inputs} out={showPairs p.outputs} par={par} sym={showPairs p.symlinks} args={showCalls st j}"
 
 def handle (line : String) : String :=
   let stmts := (line.splitOn ";").map fun s => words s
